@@ -45,6 +45,7 @@ fn from_native(xs: &[Z], bits: u32, signed: bool, st: ScalarType, via64: bool) -
 pub fn corr(run: &mut Run) {
     corr_bytes(run);
     corr_containers(run);
+    corr_constructors(run);
     run.rule = "stream A: native integer slices (10 native types, boundary-biased values) x 11 scalar types, length 0..20, \
                 encoded by Value::from_flattened_array(_u64), read back by to_flattened_array_u64/u128 and the typed accessors; \
                 B: random byte strings decoded by vec_u64/u128_from_bytes; C: check_type of byte values against array types; \
@@ -931,6 +932,149 @@ fn corr_containers(run: &mut Run) {
                     }
                 }
             }
+        }
+    }
+}
+
+
+/// the value of type `t` all of whose elements are `x` (0 or 1), assembled leaf by leaf with
+/// `from_flattened_array` / `from_scalar` (tied to the model by stream A)
+fn filled(t: &Type, x: u64) -> ciphercore_base::errors::Result<Value> {
+    match t {
+        Type::Scalar(st) => Value::from_scalar(x, *st),
+        Type::Array(shape, st) => {
+            let n: u64 = shape.iter().product();
+            Value::from_flattened_array(&vec![x; n as usize], *st)
+        }
+        Type::Tuple(ts) => Ok(Value::from_vector(ts.iter().map(|t| filled(t, x)).collect::<ciphercore_base::errors::Result<Vec<_>>>()?)),
+        Type::Vector(n, t) => Ok(Value::from_vector((0..*n).map(|_| filled(t, x)).collect::<ciphercore_base::errors::Result<Vec<_>>>()?)),
+        Type::NamedTuple(ts) => Ok(Value::from_vector(ts.iter().map(|(_, t)| filled(t, x)).collect::<ciphercore_base::errors::Result<Vec<_>>>()?)),
+    }
+}
+
+/// streams O and N: the other constructors of values.
+/// O: `Value::zero_of_type` / `Value::one_of_type` (what Zeros / Ones evaluate to) on random nested types
+///    must be THE encoding of all-zero / all-one elements — bit arrays without stray bits — and survive the
+///    JSON round trip as an equal typed value.
+/// N: `Value::from_ndarray` / `TypedValue::from_ndarray` on arrays in standard, column-major and
+///    axis-permuted memory layouts: either rejected, or the elements in LOGICAL (row-major) order.
+fn corr_constructors(run: &mut Run) {
+    let mut rng = run.rng("constructors");
+    let n_o = run.tier.scale(400, 4000);
+    for it in 0..n_o {
+        let depth = rng.below(3) as u32;
+        let t = if it % 3 == 0 {
+            // ragged bit arrays
+            let shape: Vec<u64> = match rng.below(3) { 0 => vec![1 + rng.below(20)], 1 => vec![1 + rng.below(5), 1 + rng.below(5)], _ => vec![1 + rng.below(3), 1 + rng.below(3), 1 + rng.below(5)] };
+            array_type(shape, BIT)
+        } else {
+            gen_type(&mut rng, depth)
+        };
+        for (name, x) in [("zero", 0u64), ("one", 1u64)] {
+            let tt = t.clone();
+            let r = catch(move || -> ciphercore_base::errors::Result<Option<String>> {
+                let got = if x == 0 { Value::zero_of_type(tt.clone()) } else { Value::one_of_type(tt.clone())? };
+                let want = filled(&tt, x)?;
+                if !got.check_type(tt.clone())? {
+                    return Ok(Some("check_type rejects it".into()));
+                }
+                if got != want {
+                    return Ok(Some(format!("encoding {} differs from the element-wise encoding {}", enc_value(&got), enc_value(&want))));
+                }
+                let tv = TypedValue::new(tt.clone(), got)?;
+                let js = serde_json::to_string(&tv).map_err(|e| ciphercore_base::runtime_error!("{}", e))?;
+                let back: TypedValue = serde_json::from_str(&js).map_err(|e| ciphercore_base::runtime_error!("{}", e))?;
+                if back != tv {
+                    return Ok(Some(format!("JSON round trip gives an unequal typed value ({})", js.chars().take(120).collect::<String>())));
+                }
+                Ok(None)
+            });
+            let descr = format!("{}_of_type {}", name, enc_type(&t));
+            run.oracle_case(&descr, true);
+            run.count(&format!("O:{}", name));
+            match r {
+                Ok(Ok(None)) => {}
+                Ok(Ok(Some(why))) => {
+                    // the JSON blind spots of the format (known findings) are not this stream's business
+                    if json_blind_spot(&t).is_some() && why.starts_with("JSON") {
+                        run.count("O:json-blind-spot");
+                    } else {
+                        run.oracle_fail(&format!("C13:{}-of-type", name), format!("{} : {}", descr, why));
+                    }
+                }
+                Ok(Err(e)) => {
+                    if json_blind_spot(&t).is_some() {
+                        run.count("O:json-blind-spot");
+                    } else {
+                        run.count(&format!("O:err:{}", trunc(&format!("{}", e), 40)));
+                    }
+                }
+                Err(p) => run.oracle_fail("C13:panic:of-type", format!("{} : {}", descr, p)),
+            }
+        }
+    }
+    let n_n = run.tier.scale(300, 3000);
+    for _ in 0..n_n {
+        let rank = 1 + rng.below(3) as usize;
+        let shape: Vec<usize> = (0..rank).map(|_| 1 + rng.below(4) as usize).collect();
+        let n: usize = shape.iter().product();
+        let st = *rng.pick(&[BIT, UINT8, INT8, UINT16, INT32, UINT32, INT64, UINT64]);
+        let bits = scalar_size_in_bits(st);
+        let data: Vec<u64> = (0..n).map(|_| if bits >= 64 { rng.next() } else { rng.next() % (1u64 << bits) }).collect();
+        let std_arr = ndarray::ArrayD::from_shape_vec(ndarray::IxDyn(&shape), data.clone()).unwrap();
+        let layout_kind = rng.below(3);
+        // the same LOGICAL array in another memory layout
+        let arr: ndarray::ArrayD<u64> = match layout_kind {
+            0 => std_arr.clone(),
+            1 => {
+                // column-major copy
+                let mut f = ndarray::ArrayD::<u64>::zeros(ndarray::IxDyn(&shape.iter().rev().cloned().collect::<Vec<_>>())).reversed_axes();
+                f.assign(&std_arr);
+                f
+            }
+            _ => {
+                // axes permuted (rotated) in memory
+                let mut perm: Vec<usize> = (0..rank).collect();
+                perm.rotate_left(1);
+                let pshape: Vec<usize> = perm.iter().map(|i| shape[*i]).collect();
+                let mut inv = vec![0; rank];
+                for (i, p) in perm.iter().enumerate() {
+                    inv[*p] = i;
+                }
+                let mut g = ndarray::ArrayD::<u64>::zeros(ndarray::IxDyn(&pshape)).permuted_axes(ndarray::IxDyn(&inv));
+                g.assign(&std_arr);
+                g
+            }
+        };
+        let logical: Vec<u64> = arr.iter().cloned().collect();
+        let t = array_type(shape.iter().map(|d| *d as u64).collect(), st);
+        let descr = format!("from_ndarray {} shape {:?} layout {} data {:?}", st_name(st), shape, ["standard", "column-major", "permuted-axes"][layout_kind as usize], logical);
+        run.oracle_case(&descr, true);
+        run.count(&format!("N:layout:{}", layout_kind));
+        let (a2, t2) = (arr.clone(), t.clone());
+        let r = catch(move || -> ciphercore_base::errors::Result<Option<Vec<u64>>> {
+            match Value::from_ndarray(a2, st) {
+                Ok(v) => Ok(Some(v.to_flattened_array_u64(t2)?)),
+                Err(_) => Ok(None),
+            }
+        });
+        match r {
+            Ok(Ok(Some(got))) => {
+                run.count("N:accepted");
+                // signed types read back sign-extended: compare modulo 2^bits
+                let m: u64 = if bits >= 64 { u64::MAX } else { (1u64 << bits) - 1 };
+                if got.len() != logical.len() || got.iter().zip(logical.iter()).any(|(a, b)| a & m != b & m) {
+                    run.oracle_fail("C13:from-ndarray:order", format!("{} : accepted, but the value holds {:?}", descr, got));
+                }
+            }
+            Ok(Ok(None)) => {
+                run.count("N:rejected");
+                if layout_kind == 0 {
+                    run.oracle_fail("C13:from-ndarray:standard-rejected", descr.clone());
+                }
+            }
+            Ok(Err(e)) => run.oracle_fail("C13:from-ndarray:readback", format!("{} : {}", descr, e)),
+            Err(p) => run.oracle_fail("C13:panic:from-ndarray", format!("{} : {}", descr, p)),
         }
     }
 }
